@@ -19,6 +19,8 @@ package main
 
 import (
 	"go/ast"
+	"os"
+	"path/filepath"
 	"sort"
 	"strings"
 )
@@ -56,6 +58,8 @@ func init() {
 		emit("storeIsStaleRead", "Store", "isStaleRead")
 		emit("isStaleReadFn", "", "IsStaleRead")
 		emit("fsmApply", "Store", "fsmApply")
+		emit("fsmRestore", "Store", "fsmRestore")
+		emit("isVoter", "Store", "IsVoter")
 
 		// every write of strongReadTerm in package store: "<Func>: <call source>", sorted
 		var stores []string
@@ -73,6 +77,18 @@ func init() {
 				})
 			}
 		}
+		// the raft version the tree builds against (go.mod), for the transcribed configuration.go
+		ver := ""
+		if b, err := os.ReadFile(filepath.Join(x.repo, "go.mod")); err == nil {
+			for _, line := range strings.Split(string(b), "\n") {
+				f := strings.Fields(line)
+				if len(f) >= 2 && f[0] == "github.com/hashicorp/raft" {
+					ver = f[1]
+				}
+			}
+		}
+		x.Comment("go.mod: github.com/hashicorp/raft")
+		x.DefString("raftVersion", ver)
 		sort.Strings(stores)
 		x.Comment("store/*.go: every call of s.strongReadTerm.Store")
 		x.DefStrings("strongReadTermStores", stores)
